@@ -17,7 +17,8 @@ MC_THOROUGH = [("typed", dict(fns='"f", "g"', pnames='"p"', rets="RetsTyped", ge
                ("typed2", dict(fns='"f"', pnames="", rets="RetsTyped", getters="GetTyped", maxexp=2, ns="1", maxcalls=3)),
                ("core", dict(maxcalls=3)),
                ("scopes", dict(scopes="ScopesGS", fns='"f"', ns="1", maxexp=1, maxcalls=3, rets="Rets2", getters="GetTyped")),
-               ("comparators", dict(MC_CMP, maxcalls=2)), ("comparators2", dict(MC_CMP, maxinst=2)), ("copiers", dict(MC_CPY, maxinst=2))]
+               ("comparators", dict(MC_CMP, vals="ValsObj1", maxinst=2, maxcalls=2)), ("comparators3", dict(MC_CMP, scopes="ScopesGST")),
+               ("copiers", dict(MC_CPY, maxinst=2, maxcalls=2))]
 GEN = [("bfs", 5, None, None, dict(fns='"f"', ns="1", maxexp=1, maxcalls=2, rets="RetsTyped", getters="GetTyped")),
        ("sim", 14, 12, 500, dict(pnames='"p", "q"', vals="Vals3", rets="RetsTyped", getters="GetTyped", maxexp=3, ns="0, 1, 2", maxcalls=5)),
        ("simout", 14, 8, 300, dict(fns='"f"', pnames='"p"', rets="Rets3", getters="GetTyped", onames='"x"', odata="Raw2", maxexp=3, ns="1, 2", maxcalls=4)),
@@ -25,10 +26,10 @@ GEN = [("bfs", 5, None, None, dict(fns='"f"', ns="1", maxexp=1, maxcalls=2, rets
                                       maxcalls=5, late="TRUE", toggles="TRUE")),
        # user types: comparators / copiers installed per scope (three scopes, re-installation, inheritance by scopes created later, removal),
        # objects of two type names that agree in the first field or in both, output parameters of a user type
-       ("simtypes", 16, 14, 400, dict(scopes="ScopesGST", fns='"f"', pnames='"p"', vals="ValsObj2", rets="Rets2", maxexp=2, ns="1, 2", maxcalls=4,
+       ("simtypes", 14, 25, 500, dict(scopes="ScopesGST", fns='"f"', pnames='"p"', vals="ValsObj2", rets="Rets1", maxexp=1, ns="1", maxcalls=3,
                                       maxinst=2, late="TRUE")),
-       ("simcopy", 14, 8, 250, dict(scopes="ScopesGST", fns='"f"', pnames='"p"', vals="ValsMixed", onames='"x"', odata="Typed2", rets="Rets2", maxexp=2,
-                                    ns="1", maxcalls=3, maxinst=2)),
+       ("simcopy", 14, 12, 300, dict(scopes="ScopesGST", fns='"f"', pnames="", onames='"x"', odata="Typed2", rets="Rets1", maxexp=1,
+                                    ns="1", maxcalls=3, maxinst=2, late="TRUE")),
        # the data store: values of several kinds and objects of user types whose names begin like a built-in type name
        ("simdata", 10, 8, 250, dict(scopes="ScopesGS", fns='"f"', pnames="", rets="Rets1", maxexp=1, ns="1", maxcalls=1, dkeys="Keys2", dvals="DVals1"))]
 
@@ -225,21 +226,28 @@ def sweep(rng, quick):
     return execs + scope_matrix(tns)
 
 
+def use_cmp(S, tn):
+    """scope S compares an object of type tn that agrees with the expected one in the first field only"""
+    return [["expect", S, "f", 1, 0, 0, "p=O|%s|1,2" % tn, "-", "-"], ["begin", S, "f"], ["param", S, "p", "O|%s|1,3" % tn], ["ret", S, "value", "call"], ["check"], ["end"]]
+
+
+def use_cpy(S, tn):
+    """scope S copies an output parameter of type tn"""
+    return [["expect", S, "f", 1, 0, 0, "-", "x=%s:2a00ff01" % tn, "-"], ["begin", S, "f"], ["outparam", S, "x", tn], ["ret", S, "value", "call"], ["check"], ["end"]]
+
+
+KINDS = (("installcmp", ("whole", "first"), use_cmp), ("installcpy", ("plain", "inv"), use_cpy))
+
+
 def scope_matrix(tns):
     """comparators and copiers are per scope: every ordered pair of distinct scopes among the global one and two children installs a
     function for ONE type name - every combination of the two comparison (copy) functions, in that order - and then each of the two
     scopes is used: the verdict (the bytes) must be the ones of the function that scope has.  Also: two installations in the global
-    scope before a child exists, and removal followed by a new installation."""
+    scope before a child exists, and removal (from the global scope) followed by a new installation."""
     execs = []
     scopes = ["", "s", "t"]
     n = 0
-
-    def use_cmp(S, tn):
-        return [["expect", S, "f", 1, 0, 0, "p=O|%s|1,2" % tn, "-", "-"], ["begin", S, "f"], ["param", S, "p", "O|%s|1,3" % tn], ["ret", S, "value", "call"], ["check"], ["end"]]
-
-    def use_cpy(S, tn):
-        return [["expect", S, "f", 1, 0, 0, "-", "x=%s:2a00ff01" % tn, "-"], ["begin", S, "f"], ["outparam", S, "x", tn], ["ret", S, "value", "call"], ["check"], ["end"]]
-    for op, modes, use in (("installcmp", ("whole", "first"), use_cmp), ("installcpy", ("plain", "inv"), use_cpy)):
+    for op, modes, use in KINDS:
         for m1 in modes:
             for m2 in modes:
                 for A in scopes:
@@ -258,6 +266,26 @@ def scope_matrix(tns):
                     execs.append([[op, "s", tn, m1], [op, "", tn, m2], ["clear"]] + use(S, tn))              # clear() destroys the child
     # an output parameter of a user type is expected only where a copier is in force (the frame of Mock.tla)
     return [e for e in execs if not (e[0][0] == "installcpy" and e[1][0] == "removeall" and any(l[0] == "expect" and l[1] == "" for l in e))]
+
+
+def removeall_child_family(tns):
+    """removeAllComparatorsAndCopiers on a CHILD scope S empties that scope only: what was installed through scope X is still in
+    force in scope U afterwards"""
+    execs = []
+    n = 0
+    for op, modes, use in KINDS:
+        for X, S, U in (("", "s", ""), ("", "s", "t"), ("t", "s", "t"), ("", "s", "s"), ("s", "s", "s"), ("s", "t", "s")):
+            tn = tns[(5 * n) % len(tns)]
+            n += 1
+            if op == "installcpy" and U == S:
+                continue             # no copier left in U: outside the frame
+            execs.append([[op, X, tn, modes[n % 2]], ["removeall", S]] + use(U, tn))
+        execs.append([[op, "s", tns[n % len(tns)], modes[0]], ["removeall", "s"], [op, "s", tns[n % len(tns)], modes[1]]] + use("s", tns[n % len(tns)]))
+    return execs
+
+
+def removes_in_child(ex):
+    return any(l[0] == "removeall" and l[1] != "" for l in ex)
 
 
 HEX = re.compile(r"0x[0-9a-fA-F]+")
@@ -339,19 +367,30 @@ def detail(ex, i):
     op = l[0]
     if op == "ret":
         return ":" + str(l[2])
-    if op in ("param", "setdata"):
+    if op == "param":
+        f = str(l[3]).split("|")
+        nsc = len({x[1] for x in ex[:i] if x[0] == "installcmp" and x[2] == f[1]}) if f[0] == "O" else 0
+        return ":" + value_class(l[3]) + (":comparators-in-%d-scopes" % nsc if nsc > 1 else "")
+    if op == "setdata":
         return ":" + value_class(l[3])
     if op == "getdata":
         src = [x for x in ex[:i] if x[0] == "setdata" and x[1] == l[1] and x[2] == l[2]]
         return ":" + (value_class(src[-1][3]) if src else "missing")
     if op in ("installcmp", "installcpy", "removeall"):
         return ":" + ("global" if l[1] == "" else "child")
-    if op in ("outparam",):
-        return ":" + ("raw" if l[3] == "raw" else "typed")
+    if op == "outparam":
+        nsc = len({x[1] for x in ex[:i] if x[0] == "installcpy" and x[2] == l[3]})
+        return ":" + ("raw" if l[3] == "raw" else "typed") + (":copiers-in-%d-scopes" % nsc if nsc > 1 else "")
     if any(x[0] in ("installcmp", "installcpy") for x in ex[:i]) and op in ("check", "end", "begin", "expect"):
         nsc = len({x[1] for x in ex[:i] if x[0] in ("installcmp", "installcpy")})
         return ":usertypes-in-%d-scope%s" % (nsc, "" if nsc == 1 else "s")
     return ""
+
+
+def family_detail(family, ex):
+    if family == "removeall-in-child-scope":
+        return "comparator" if any(l[0] == "installcmp" for l in ex) else "copier"
+    return next((l[2] for l in ex if l[0] == "ret"), "?")
 
 
 def key_fn(mode, family):
@@ -359,8 +398,7 @@ def key_fn(mode, family):
         op = ex[idx][0] if idx < len(ex) else "?"
         r = observed.get("r", "?") if isinstance(observed, dict) else "?"
         if family:
-            g = next((l[2] for l in ex if l[0] == "ret"), "?")
-            return "%s:%s:%s:%s" % (kind, mode, family, g)
+            return "%s:%s:%s:%s" % (kind, mode, family, family_detail(family, ex))
         return "%s:%s:%s%s:%s" % (kind, mode, op, detail(ex, idx), r)
     return f
 
@@ -385,13 +423,13 @@ def run(ctx):
         before = len(ctx.violations) + len(ctx.known_hits)
         for mode in ("cpp", "c"):
             conform(ctx, "%s-%s" % (label, mode), execs, harness(mode, label), "Trace_Mock", tcfg, pcfg, key_fn(mode, family), tlc_timeout=1800,
-                    meta=dict(meta, mode=mode), max_report=1 if family else 3)
+                    meta=dict(meta, mode=mode, family=family), max_report=1 if family else 3)
         ctx.evaluations += 2 * sum(len(e) for e in execs)
         # the two interfaces must agree line by line on the projection
         la, lb = read_log(saved[(label, "cpp")]), read_log(saved[(label, "c")])
         flat = [(k, i) for k, e in enumerate(execs) for i in range(len(e) + 1)]       # (+1: the reset line)
         reported = set()
-        for j, (a, b) in enumerate(zip(la, lb)):
+        for j, (a, b) in enumerate(zip(la, lb) if len(la) == len(lb) else []):      # (after a crash the logs are not aligned)
             if projection(a) != projection(b):
                 k, i = flat[j] if j < len(flat) else (len(execs) - 1, 0)
                 if k in reported:
@@ -402,10 +440,10 @@ def run(ctx):
                 fields = sorted(f for f in set(projection(a)) | set(projection(b)) if projection(a).get(f) != projection(b).get(f))
                 key = "differ:%s%s:%s" % (op, detail(ex, i), ",".join(fields))
                 if family:
-                    key = "differ:%s:%s" % (family, next((l[2] for l in ex if l[0] == "ret"), "?"))
+                    key = "differ:%s:%s" % (family, family_detail(family, ex))
                 ctx.diverge(key, "%s: the C interface and the C++ interface disagree at call %d of execution %d (%s): C++ %s / C %s"
                             % (label, i + 1, k, ",".join(fields), json.dumps(projection(a))[:400], json.dumps(projection(b))[:400]),
-                            {"meta": dict(meta, mode="c"), "label": label, "kind": "differ", "script": ["\t".join(map(str, l)) for l in ex], "failing_call": i + 1,
+                            {"meta": dict(meta, mode="c", family=family), "label": label, "kind": "differ", "script": ["\t".join(map(str, l)) for l in ex], "failing_call": i + 1,
                              "cpp": a, "c": b})
                 if len(reported) >= (1 if family else 5):
                     break
@@ -415,7 +453,7 @@ def run(ctx):
     if ctx.replay:
         rp = json.load(open(ctx.replay))
         ex = [l.split("\t") for l in rp["script"]]
-        both("replay", [ex], rp.get("meta") or {})
+        both("replay", [ex], rp.get("meta") or {}, family=(rp.get("meta") or {}).get("family"))
         return ctx.finish("replay of one recorded execution in both interfaces", 1)
 
     # ---- leg 1
@@ -439,11 +477,11 @@ def run(ctx):
         allx += execs
     ngen = len(allx)
     allx = [e for e in allx if contiguous_calls(e)]
-    main, older = [], []
+    main, older, child_removal = [], [], []
     for e in allx:
         e2, fam = G.assign_via(e, ctx.rng, True)
-        (older if fam else main).append(e2)
-    ctx.notes["generated"] = {"behaviours": ngen, "expressible_in_c": len(allx), "family_older_call": len(older)}
+        (child_removal if removes_in_child(e2) else (older if fam else main)).append(e2)
+    ctx.notes["generated"] = {"behaviours": ngen, "expressible_in_c": len(allx), "family_older_call": len(older), "family_removeall_in_child_scope": len(child_removal)}
     if quick and len(main) > 2500:
         main = ctx.rng.sample(main, 2500)
     sw = sweep(ctx.rng, quick)
@@ -455,17 +493,22 @@ def run(ctx):
     both("main", main + sw + rnd, {"leg": "main"})
     # ---- the two scenario families in which the C layer's single static "current call" shows (each keyed by its family)
     fam1 = ignored_family(ctx.rng)
+    if quick:
+        fam1 = ctx.rng.sample(fam1, 2)       # (every execution of these families is rejected and localised separately: ~3 s each)
     both("support-after-ignored", fam1, {"leg": "support-after-ignored"}, family="support-getter-after-ignored-call")
-    fam2 = older_family() + older[: (10 if quick else 200)]
+    fam2 = (older_family()[:1] + older[:1]) if quick else (older_family() + older[:200])
     both("older-call", fam2, {"leg": "older-call"}, family="support-getter-of-older-call")
     fam3 = before_any_call_family()
     both("before-any-call", fam3, {"leg": "before-any-call"}, family="support-getter-before-any-call")
+    # ---- removal of comparators / copiers in a child scope (keyed by its family)
+    fam4 = removeall_child_family(G.user_type_names()) + child_removal[: (4 if quick else 400)]
+    both("removeall-in-child-scope", fam4, {"leg": "removeall-in-child-scope"}, family="removeall-in-child-scope")
     allx = main
     for e in allx + sw + rnd:
         ops = [l[0] for l in e]
         if "begin" in ops or "getdata" in ops:
             distinct.add(json.dumps(e))
-    cov = coverage(allx + sw + rnd + fam1 + fam2)
+    cov = coverage(allx + sw + rnd + fam1 + fam2 + fam4)
     tables = {"MockSupport_c": C_SUPPORT_OTHER + sorted(set(C_GETTERS.values())), "MockExpectedCall_c": C_EXPECT,
               "MockActualCall_c": C_ACTUAL + ["hasReturnValue"] + sorted(set(C_GETTERS.values()))}
     missing = [t + "." + n for t, names in tables.items() for n in names if cov.get(t + "." + n, 0) == 0]
@@ -475,11 +518,20 @@ def run(ctx):
         raise Infra("entry points of the C function tables never driven: %s" % missing)
     return ctx.finish(
         rule="scenarios = TLC-generated behaviours of Mock (typed return values, typed getters with and without default, output parameters, scopes, "
-             "disable/enable) + a per-type sweep (every parameter / return type x boundary lattice, every getter on every return type, data store) + "
-             "seeded random scenarios expressible in both interfaces; each is executed twice, through mock() and through mock_c(), as the body of a "
-             "fixture test; distinct = distinct scripts with at least one actual call or data read",
+             "disable/enable, comparators and copiers installed / inherited / removed per scope with two comparison and two copy functions, the data "
+             "store with objects of user types) + a per-type sweep (every parameter / return type x boundary lattice, every getter on every return type, "
+             "data store, every user-type name of mockgen.user_type_names() as parameter / output / data object, every ordered pair of scopes x pair of "
+             "functions for one type name) + seeded random scenarios expressible in both interfaces (user types installed per scope by "
+             "mockgen.install_plan); each is executed twice, through mock() and through mock_c(), as the body of a fixture test; "
+             "distinct = distinct scripts with at least one actual call or data read",
         distinct_nontrivial=len(distinct), exhaustive=False,
         assumptions=["scenarios expressible in both interfaces: no onObject (absent from the C interface), the sub-calls of one actual call are contiguous, "
                      "a return value is read only after an actual call of the same test (the three families that leave this frame are run and keyed separately)",
                      "failure texts are compared after replacing hexadecimal addresses",
-                     "an object read back through the C tagged union carries no type name; only its content is compared"])
+                     "an object read back through the C tagged union carries no type name; only its content is compared",
+                     "user types: objects are records of two ints, the comparison functions are 'all fields' / 'first field only', the copy functions 'bytes' / "
+                     "'bytes inverted' (4-byte output objects); an output parameter of a user type is expected only where a copier is in force ('No way to "
+                     "copy' is not modelled); comparators and copiers are removed only while no expectation exists (an expectation keeps the function it "
+                     "bound); the harness addresses the call's scope again before a user-type parameter, as the fluent form does",
+                     "a child scope created after several installations for one type name in the global scope sees the OLDEST of them (MockSupport::clone "
+                     "copies the list in reverse): modelled as the C++ interface behaves, the reference of this property"])
